@@ -31,6 +31,9 @@ NOT_DECIDED = "orthonormality, variance identities, projection laws -- numeric"
 TECHNIQUE = "co-update / co-indexing dataflow + normaliser-role check + order-kind domain (static analysis)"
 
 DEC = "menpo.math.decomposition."
+# functions that belong to this property although no rule pattern-matches them (checked by the generic rules G1/G2)
+EXTRA_SCOPE = ["menpo.model.pca.PCAModel.__init__", "menpo.model.pca.PCAVectorModel.__init__", "menpo.model.pca.PCAModel.init_from_covariance_matrix",
+               "menpo.model.pca.PCAModel.init_from_components", "menpo.model.pca.PCAVectorModel.init_from_covariance_matrix", "menpo.model.pca.PCAVectorModel.init_from_components"]
 
 
 def rule_r1(p, res):
